@@ -367,9 +367,21 @@ def check_case(ctx, c, origin):
     if len(ctx.samples) < 8 and origin == "random" and ctx.dist[f"search:{c['family']}" + (f":{sub}" if sub else "")] == 1 \
             and c["family"] in ("cylinder_partition", "cuboid_repr"):
         ctx.samples.append({"search_case": c})
+    fls = S.evaluate(c)
+    if not fls:
+        return
+    # shrink only the first few failures of each (unshrunk) signature: a broad defect fails on most cases
+    fl = max(fls, key=lambda x: (x["field"] in "BH", x["rel"]))
+    sig0 = S.signature(c, fl)
+    seen = ctx.extra.setdefault("_c13_seen", {})
+    if sig0 in seen or len(seen) >= 12:
+        sig = seen.get(sig0, sig0)
+        ctx.impl_fail(sig, fl["detail"], {"kind": "search", "case": c})
+        return
     r = S.find_and_shrink(c)
     if r is not None:
         sig, what, shrunk = r
+        seen[sig0] = sig
         ctx.impl_fail(sig, what, {"kind": "search", "case": shrunk})
 
 
@@ -399,6 +411,7 @@ def run(ctx):
     run_guarded(ctx, lambda: mesh_oracle(ctx, mk), "C13 mesh oracle")
     big = bool(ctx.broken)
     run_guarded(ctx, lambda: search(ctx, 5 if big else 1), "C13 search")
+    ctx.extra.pop("_c13_seen", None)
 
 
 def replay(ctx, obj):
